@@ -300,8 +300,9 @@ class Attack:
             lines[0] = f"class {name}({name}Base):"
             self.R.count("classes_re_annotating_inherited_attributes")
         # a derived value computed on first use and kept by the instance (functools.cached_property): reading it is no modification
-        lines += ["    @functools.cached_property", "    def hv_derived(self):", "        return ('derived', len(type(self).__ATTRIBUTES__), object())"]
-        src = "import functools\n" + base_src + "\n".join(lines) + "\n"
+        # (what it keeps is the instance's own business: a lock, a generator, an open handle - nothing a copy of the VALUE has to copy)
+        lines += ["    @functools.cached_property", "    def hv_derived(self):", "        return ('derived', len(type(self).__ATTRIBUTES__), object(), threading.Lock() if len(type(self).__name__) % 2 else None)"]
+        src = "import functools, threading\n" + base_src + "\n".join(lines) + "\n"
         try:
             N.define(src)
         except BaseException as exc:  # noqa: BLE001
